@@ -10,6 +10,7 @@ CONSTANTS
   Plus = "or"
   Times = "and"
   LeafKind = "bool"
+  Param = FALSE
   Tag = "sp_orand"
 INVARIANT Inv_OracleInputs
 INVARIANT Emit
